@@ -12,8 +12,12 @@ inductive Fmt | plain | region
 /-- what EncodeRequest / DecodeResponse did to the marker key placed in the field -/
 inductive Effect | prefixed | stripped | strippedRegion | unchanged | error | dropped | other | panic
   deriving DecidableEq, Repr
-/-- request range-end fields left empty: what came out (`na` = not a range end) -/
-inductive EmptyEnd | na | kend | empty | other
+/-- what an EMPTY key placed in a request field came out as: the keyspace end, the keyspace prefix, still empty,
+    or anything else (`na` on the response side) -/
+inductive EmptyEff | na | kend | kstart | empty | other
+  deriving DecidableEq, Repr
+/-- role of a key-bearing field by its name: `start`/`start_key`, `end`/`end_key`, or a plain key -/
+inductive Role | key | start | end_
   deriving DecidableEq, Repr
 
 structure FieldRow where
@@ -24,7 +28,8 @@ structure FieldRow where
   fmt : Fmt             -- expected wire form by the rule: plain key or region boundary (memcomparable)
   effect : Effect
   intact : Bool         -- EncodeRequest left the caller's message untouched (requests are re-encoded on retry)
-  emptyEnd : EmptyEnd
+  role : Role
+  empty : EmptyEff
   known : Bool          -- the row matched a `known` entry of known_findings.json (printed as KNOWN-FINDING)
 
 structure CmdRow where
@@ -46,7 +51,11 @@ structure CmdRow where
 /-- the rule: what a key-bearing field row must show -/
 def FieldRow.ok (r : FieldRow) : Bool :=
   match r.side with
-  | .req => r.effect == .prefixed && r.intact && (r.emptyEnd == .na || r.emptyEnd == .kend)
+  | .req => r.effect == .prefixed && r.intact &&
+      (match r.role with
+       | .end_ => r.empty == .kend                          -- empty end = end of the keyspace
+       | .start => r.empty == .kstart                       -- empty start = start of the keyspace, never the global start
+       | .key => r.empty == .kstart || r.empty == .empty)   -- empty key: prefixed, or left unset
   | .resp =>
     match r.fmt with
     | .plain => r.effect == .stripped
